@@ -18,6 +18,8 @@ type Hook interface {
 	Store(addr unsafe.Pointer, size uintptr, site int)
 	// MapStore: a store into (or delete from) the map identified by id, about to happen.
 	MapStore(id unsafe.Pointer, site int)
+	// MapRead: a lookup in (or a range over) the map identified by id, about to happen.
+	MapRead(id unsafe.Pointer, site int)
 	// Global: a read or write of a package-level variable of the instrumented packages, about to happen.
 	Global(addr unsafe.Pointer, write bool, site int)
 	// MapOrder: a map with n entries is about to be ranged; return a permutation of 0..n-1 (nil = identity over the canonically sorted keys).
@@ -66,6 +68,12 @@ func WM(id unsafe.Pointer, site int) {
 	}
 }
 
+func RM(id unsafe.Pointer, site int) {
+	if p := cur.Load(); p != nil {
+		p.h.MapRead(id, site)
+	}
+}
+
 func G(addr unsafe.Pointer, write bool, site int) {
 	if p := cur.Load(); p != nil {
 		p.h.Global(addr, write, site)
@@ -109,6 +117,7 @@ func MapOrder[K comparable, V any](m map[K]V, site int) []K {
 	if p == nil {
 		return keys
 	}
+	p.h.MapRead(MapID(m), site)
 	sort.Slice(keys, func(i, j int) bool { return fmt.Sprint(keys[i]) < fmt.Sprint(keys[j]) })
 	perm := p.h.MapOrder(len(keys), site)
 	if perm == nil {
